@@ -114,6 +114,22 @@ class Env:
             raise ReplayInvalid(f"{name}={f} violates its declared range")
         return f
 
+    def choice(self, label, n):
+        """symbolic index in range(n): every value is explored as its own path (forking); in concrete
+        mode the index recorded in the counterexample is taken"""
+        if n <= 1:
+            return 0
+        s = self.sym(f"choice_{label}")
+        if self.mode == "sym":
+            for i in range(n - 1):
+                if bool(SV(s) == i):
+                    return i
+            return n - 1
+        for i in range(n - 1):
+            if float(s) == i:
+                return i
+        return n - 1
+
     def syms(self, prefix, n, **kw):
         return [self.sym(f"{prefix}{i}", **kw) for i in range(n)]
 
